@@ -152,8 +152,7 @@ func (g *gen) genFunc(typs []types.Type) error {
 	p.P("")
 	p.P("// %s returns whether this and that are equal.", name)
 	if strct, ok := typs[0].(*types.Struct); ok {
-		fields := derive.GetStructFields(strct)
-		fieldStrs, err := g.FieldStrings(fields)
+		fieldStrs, err := derive.StructFieldStrings(g.TypesMap, strct)
 		if err != nil {
 			return err
 		}
